@@ -35,6 +35,8 @@ def make_header(seed: int, prop: str, profile: Dict) -> Dict:
     from pactisim import ops  # noqa: WPS433
 
     rs = env.stream(seed, "plan")
+    style = ops.draw_style(env.stream(seed, "style"))
+    ops.set_style(style)
     pool = ops.gen_initial_pool(rs)
     n_steps = rs.choice(profile.get("lengths", [8, 12, 20, 30]))
     ck = env.stream(seed, "clock")
@@ -67,7 +69,7 @@ def make_header(seed: int, prop: str, profile: Dict) -> Dict:
             weights[o] = weights.get(o, 1.0) * 0.1
         elif r > 0.85:
             weights[o] = weights.get(o, 1.0) * 3.0
-    return {"prop": prop, "seed": seed, "pool": pool, "n_steps": n_steps, "steps": None, "clock": clock, "swarm": swarm,
+    return {"prop": prop, "seed": seed, "style": style, "pool": pool, "n_steps": n_steps, "steps": None, "clock": clock, "swarm": swarm,
             "ops": all_ops, "weights": weights}
 
 
@@ -79,6 +81,7 @@ def online_gen(seed: int) -> Callable:
 
     def gen(sess, i: int) -> Dict:
         plan = sess.plan
+        ops.set_style(plan.get("style"))
         view = ops.View(sess.snap, sess.seams.fs.files, sess.recent)
         step = ops.gen_step(rs, view, plan["ops"], plan["weights"])
         sw = plan["swarm"]
